@@ -185,6 +185,15 @@ def tryMove (g : Game P M) (p : P)
   | .error (.illegal _) => .ok (.next a, s)
   | .error e => .error e
 
+/-- sequencing of two parts of a loop: the second part runs only if the first ended with "next iteration" -/
+def Ctl.andThen (r : Except Err (Ctl σ ρ × Eng M))
+    (k : σ → Eng M → Except Err (Ctl σ ρ × Eng M)) : Except Err (Ctl σ ρ × Eng M) :=
+  match r with
+  | .error e => .error e
+  | .ok (.next a, s) => k a s
+  | .ok (.brk a, s) => .ok (.brk a, s)
+  | .ok (.ret r, s) => .ok (.ret r, s)
+
 /-- the `default:` stage of `Next` over the generated moves, with the three de-duplication tests -/
 def runList (g : Game P M) (p : P)
     (body : M → P → σ → Eng M → Except Err (Ctl σ ρ × Eng M))
@@ -192,65 +201,78 @@ def runList (g : Game P M) (p : P)
   | [], a, s => .ok (.next a, s)
   | m :: ms, a, s =>
     if skip m then runList g p body skip ms a s
-    else
-      match tryMove g p body m a s with
-      | .error e => .error e
-      | .ok (.next a, s) => runList g p body skip ms a s
-      | .ok (c, s) => .ok (c, s)
+    else Ctl.andThen (tryMove g p body m a s) (runList g p body skip ms)
+
+/-- `mg.te != nil && mg.te.m.Equal(m)` -/
+def MG.teEq (g : Game P M) (mg : MG M) (m : M) : Bool :=
+  match mg.te with | some e => g.moveEq e.m m | none => false
+
+/-- `len(mg.pv) != 0 && mg.pv[0].Equal(m)` -/
+def MG.pvEq (g : Game P M) (mg : MG M) (m : M) : Bool :=
+  match mg.pv with | x :: _ => g.moveEq x m | [] => false
+
+/-- `mg.te != nil && m.Equal(mg.te.m)` (the test of `case 1`) -/
+def MG.isTe (g : Game P M) (mg : MG M) (m : M) : Bool :=
+  match mg.te with | some e => g.moveEq m e.m | none => false
+
+/-- `case 0`: the move of the table entry (a copy, see the file header) -/
+def stage0 (g : Game P M) (p : P) (mg : MG M)
+    (body : M → P → σ → Eng M → Except Err (Ctl σ ρ × Eng M))
+    (a : σ) (s : Eng M) : Except Err (Ctl σ ρ × Eng M) :=
+  match mg.te with
+  | some e => tryMove g p body e.m a s
+  | none => .ok (.next a, s)
+
+/-- `case 1`: the first move of the PV hint unless it is the table move -/
+def stage1 (g : Game P M) (p : P) (mg : MG M)
+    (body : M → P → σ → Eng M → Except Err (Ctl σ ρ × Eng M))
+    (a : σ) (s : Eng M) : Except Err (Ctl σ ρ × Eng M) :=
+  match mg.pv with
+  | m :: _ =>
+    if mg.isTe g m then .ok (.next a, s)
+    else tryMove g p body m a s
+  | [] => .ok (.next a, s)
+
+/-- `mg.r, ok = mg.ai.response[mg.ai.stack[mg.ply-1].m]` (not at ply 0) -/
+def respLookup [DecidableEq M] (ply : Nat) (s : Eng M) : Except Err (Option M) :=
+  if ply == 0 then .ok none
+  else match getA s.stackM (ply - 1) "stack[ply-1].m" with
+    | .ok prev => .ok (respGet s.response prev)
+    | .error e => .error e
+
+/-- the de-duplication tests of the `default:` stage -/
+def skipGen (g : Game P M) (mg : MG M) (r : M) (m : M) : Bool :=
+  mg.teEq g m || mg.pvEq g m || g.moveEq r m
+
+/-- `case 3` and `default:` the generated moves (sorted by history when `depth > 1 && !NoSort`) -/
+def stage3 (g : Game P M) (cfg : Cfg) (o : Oracle M) (p : P) (mg : MG M)
+    (body : M → P → σ → Eng M → Except Err (Ctl σ ρ × Eng M))
+    (r? : Option M) (a : σ) (s : Eng M) : Except Err (Ctl σ ρ × Eng M) :=
+  let ms := g.allMoves p
+  let sorted := mg.depth > 1 && !cfg.noSort
+  let ms := if sorted then o.order s.sorts ms else ms
+  let s := if sorted then { s with sorts := s.sorts + 1 } else s
+  runList g p body (skipGen g mg (r?.getD g.zeroMove)) ms a s
+
+/-- `case 2` (response hint, looked up when the generator gets there) followed by the generated moves -/
+def stage23 [DecidableEq M] (g : Game P M) (cfg : Cfg) (o : Oracle M) (p : P) (mg : MG M)
+    (body : M → P → σ → Eng M → Except Err (Ctl σ ρ × Eng M))
+    (a : σ) (s : Eng M) : Except Err (Ctl σ ρ × Eng M) :=
+  match respLookup mg.ply s with
+  | .error e => .error e
+  | .ok r? =>
+    Ctl.andThen
+      (match r? with
+       | some r => tryMove g p body r a s
+       | none => .ok (.next a, s))
+      (stage3 g cfg o p mg body r?)
 
 /-- `for m, child := mg.Next(); child != nil; m, child = mg.Next() { body }` from a fresh (or `Reset`)
 generator: stage 0 table move, stage 1 PV hint, stage 2 response hint, then the generated moves. -/
 def iterate [DecidableEq M] (g : Game P M) (cfg : Cfg) (o : Oracle M) (p : P) (mg : MG M)
     (body : M → P → σ → Eng M → Except Err (Ctl σ ρ × Eng M))
     (a : σ) (s : Eng M) : Except Err (Ctl σ ρ × Eng M) :=
-  -- case 0
-  let r0 : Except Err (Ctl σ ρ × Eng M) := match mg.te with
-    | some e => tryMove g p body e.m a s
-    | none => .ok (.next a, s)
-  match r0 with
-  | .error e => .error e
-  | .ok (.brk a, s) => .ok (.brk a, s)
-  | .ok (.ret r, s) => .ok (.ret r, s)
-  | .ok (.next a, s) =>
-  -- case 1
-  let r1 : Except Err (Ctl σ ρ × Eng M) := match mg.pv with
-    | m :: _ =>
-      if (match mg.te with | some e => g.moveEq m e.m | none => false) then .ok (.next a, s)
-      else tryMove g p body m a s
-    | [] => .ok (.next a, s)
-  match r1 with
-  | .error e => .error e
-  | .ok (.brk a, s) => .ok (.brk a, s)
-  | .ok (.ret r, s) => .ok (.ret r, s)
-  | .ok (.next a, s) =>
-  -- case 2
-  let resp : Except Err (Option M) :=
-    if mg.ply == 0 then .ok none
-    else match getA s.stackM (mg.ply - 1) "stack[ply-1].m" with
-      | .ok prev => .ok (respGet s.response prev)
-      | .error e => .error e
-  match resp with
-  | .error e => .error e
-  | .ok r? =>
-  let r2 : Except Err (Ctl σ ρ × Eng M) := match r? with
-    | some r => tryMove g p body r a s
-    | none => .ok (.next a, s)
-  match r2 with
-  | .error e => .error e
-  | .ok (.brk a, s) => .ok (.brk a, s)
-  | .ok (.ret r, s) => .ok (.ret r, s)
-  | .ok (.next a, s) =>
-  -- case 3
-  let ms := g.allMoves p
-  let sorted := mg.depth > 1 && !cfg.noSort
-  let ms := if sorted then o.order s.sorts ms else ms
-  let s := if sorted then { s with sorts := s.sorts + 1 } else s
-  let r := r?.getD g.zeroMove
-  let skip := fun m =>
-    (match mg.te with | some e => g.moveEq e.m m | none => false) ||
-    (match mg.pv with | x :: _ => g.moveEq x m | [] => false) ||
-    g.moveEq r m
-  runList g p body skip ms a s
+  Ctl.andThen (Ctl.andThen (stage0 g p mg body a s) (stage1 g p mg body)) (stage23 g cfg o p mg body)
 
 end
 end Search
